@@ -292,7 +292,12 @@ func (a *Box2) lineIntersect(l *Line2) *Line2 {
 	}
 
 	// filter the t-values
-	var pSet []v2.Vec
+	// The part of a line within a (convex) box is a single interval of t: keep the first and
+	// the last point found in the box. There can be more than two, E.g. an end point just
+	// outside the box that is snapped onto a box edge next to the crossing of that edge.
+	n := 0
+	var t0, t1 float64
+	var p0, p1 v2.Vec
 	for _, t := range tSet {
 		p := u.Add(v.MulScalar(t))
 		if t == 0 {
@@ -303,20 +308,22 @@ func (a *Box2) lineIntersect(l *Line2) *Line2 {
 		p = a.Snap(p, tolerance)
 		// is the point in the box?
 		if a.Contains(p) {
-			pSet = append(pSet, p)
+			if n == 0 || t < t0 {
+				t0, p0 = t, p
+			}
+			if n == 0 || t > t1 {
+				t1, p1 = t, p
+			}
+			n++
 		}
 	}
 
-	if len(pSet) != 2 {
+	if n < 2 {
 		return nil
 	}
 
-	// make sure it's aligned with the original line
-	vx := pSet[1].Sub(pSet[0])
-	if v.Dot(vx) > 0 {
-		return &Line2{pSet[0], pSet[1]}
-	}
-	return &Line2{pSet[1], pSet[0]}
+	// aligned with the original line
+	return &Line2{p0, p1}
 }
 
 // lineFilter returns the intersection of a box and a set of line segments.
